@@ -96,9 +96,62 @@ let codec_case (line : string) : string =
      | None -> id ^ " err")
   | _ -> failwith ("bad codec case: " ^ line)
 
+(* ---------- histories (Core model / spec) ---------- *)
+let n_of_dec = n_of_string
+let level_of_string = function
+  | "RU" -> RU | "RC" | "DEF" -> RC | "RR" -> RR | _ -> SER
+let string_of_err = function
+  | ENotFound -> "NotFound" | EEmptyKey -> "EmptyKey" | ETxNotFound -> "TxNotFound"
+  | ETxSerialization -> "TxSerialization"
+let string_of_out = function
+  | OutUnit -> "ok"
+  | OutHandle h -> "h " ^ string_of_n h
+  | OutVal v -> "val " ^ string_of_n v
+  | OutKeys ks -> String.concat " " ("keys" :: List.map string_of_n ks)
+  | OutErr e -> "err " ^ string_of_err e
+
+let op_of_tokens (t : string list) : op option =
+  match t with
+  | "begin" :: l :: _ -> Some (OBegin (level_of_string l))
+  | "set" :: h :: k :: v :: _ -> Some (OSet (n_of_dec h, n_of_dec k, n_of_dec v))
+  | "del" :: h :: k :: _ -> Some (ODel (n_of_dec h, n_of_dec k))
+  | "get" :: h :: k :: _ -> Some (OGet (n_of_dec h, n_of_dec k))
+  | "keys" :: h :: _ -> Some (OKeys (n_of_dec h))
+  | "commit" :: h :: _ -> Some (OCommit (n_of_dec h))
+  | "rollback" :: h :: _ -> Some (ORollback (n_of_dec h))
+  | "gc" :: _ -> Some OGC
+  | "drain" :: _ -> Some ODrain
+  | "reopen" :: _ -> Some OReopen
+  | _ -> None
+
+let cmp_n a b = compare (i64_of_n a) (i64_of_n b)  (* values are small here *)
+
+(* generic history runner over a step function and a disk query *)
+let hist_run (init : 'st) (step : 'st -> op -> 'st * out) (disk : 'st -> n list) (lines : string list) : unit =
+  let st = ref init in
+  List.iter
+    (fun l ->
+      let l = String.trim l in
+      if l <> "" && l.[0] <> '#' then
+        match split_ws l with
+        | "case" :: id :: _ -> st := init; print_endline ("case " ^ id)
+        | "keytab" :: _ -> ()
+        | "end" :: _ -> print_endline "end"
+        | "disk" :: _ ->
+          (* the harness waits for pool quiescence before walking the roots *)
+          let (st', _) = step !st ODrain in st := st';
+          let vs = List.sort cmp_n (disk !st) in
+          print_endline (String.trim ("disk other=0 vals " ^ String.concat " " (List.map string_of_n vs)))
+        | t ->
+          (match op_of_tokens t with
+           | Some o -> let (st', r) = step !st o in st := st'; print_endline (string_of_out r)
+           | None -> print_endline ("BAD-OP " ^ l)))
+    lines
+
 let () =
   let cmd = Sys.argv.(1) in
   let lines = read_lines Sys.argv.(2) in
+  if cmd = "hist" then (hist_run m_init mstep (fun m -> List.map snd m.m_cont) lines; exit 0);
   let f =
     match cmd with
     | "vlist" -> vlist_case vrun
